@@ -156,6 +156,7 @@ Section RW.
   Proof.
     unfold config_read. unfold clear_cfg. cbn [fst snd].
     destruct (lex_top atof FS _ top text) as [toks stop]. cbv zeta.
+    destruct (NEST_LIMIT <? max_nest toks 0 0); [cbn [rd_out_]; discriminate|].
     destruct (p_config _ _) as [s|e s|s|s]; cbn [rd_out_ rd_cfg]; try discriminate.
     - intros _. reflexivity.
     - destruct stop; discriminate.
@@ -168,6 +169,7 @@ Section RW.
   Proof.
     unfold config_read. unfold clear_cfg. cbn [fst snd].
     destruct (lex_top atof FS _ top text) as [toks stop]. cbv zeta.
+    destruct (NEST_LIMIT <? max_nest toks 0 0); [cbn [rd_out_]; discriminate|].
     destruct (p_config _ _) as [s|e s|s|s]; cbn [rd_out_ rd_cfg]; try discriminate.
     - intros _. cbn [c_err set_err e_type e_text]. split; [reflexivity|].
       unfold yyerror. destruct (e_text (apply_scan_errs _ _)) eqn:E; cbn [e_text]; [rewrite E|]; discriminate.
